@@ -62,10 +62,19 @@ def c_diag_pauli(ctx, args):
 
 
 def c_diag_state(ctx, args):
-    t, = args
+    t = args[0]
+    variant = args[1] if len(args) > 1 else 'orig'      # orig | copy (before any run) | used_copy (copied after one forward) | compiled_copy
     n = len(t[0]) // 2
     s = NP.STATE(t)
     circ = pc.diagonalize(s)
+    if variant == 'copy':
+        circ = circ.copy()
+    elif variant == 'used_copy':
+        circ.forward(s.copy())
+        circ = circ.copy()
+    elif variant == 'compiled_copy':
+        circ.compile()
+        circ = circ.copy()
     s2 = s.copy()
     circ.forward(s2)
     zero = S.st_list(pc.zero_state(n))
@@ -180,6 +189,7 @@ def run(ctx):
     for it in range(int(60 * B)):
         n = rng.randint(1, 4)
         do(ctx, 'diag_state', [gen.rtableau(rng, ctx.model, n, r=0, depth=rng.randint(0, 2))], nontrivial=('sb', it))
+        do(ctx, 'diag_state', [gen.rtableau(rng, ctx.model, n, r=0), rng.choice(['copy', 'used_copy', 'compiled_copy'])], nontrivial=('sc', it))
     # corpus: witnesses of the fixed identity-leading-term defect
     do(ctx, 'sbrg', [2, [[[0, 0, 0, 0], 3.0], [[0, 1, 0, 1], 1.0], [[1, 0, 1, 0], 0.5]], True], nontrivial='w_id1', sample=True)
     do(ctx, 'sbrg', [2, [[[0, 0, 0, 0], 3.0], [[1, 1, 0, 1], 1.0], [[0, 1, 1, 1], 0.5]], True], nontrivial='w_id2')
